@@ -17,14 +17,15 @@
      and, composed with L2/L3 (C05_loaded_trie_answers at the end of this file): GetID,
      Get and searchID run over the loaded message return the tree model's answers.
      Not composed: the scanners (proved over the tree, C04).
-   * determinism of the BUILD (sortedBMCounts tie-break) is covered by the oracle
-     only; Marshal being a function of the message is immediate (marshal_gen is a
-     Coq function). *)
+   * determinism of the BUILD: the one step that reads unordered data (sortedBMCounts)
+     is proved independent of map order and sort algorithm (C05_build_deterministic);
+     Marshal being a function of the message is immediate (marshal_gen is a Coq function). *)
 From Coq Require Import List NArith ZArith Bool.
 From Coq.Strings Require Import Byte.
 From Slim Require Import Varint VarintProofs Proto ProtoProofs Semver Frame FrameProofs Instance InstanceProofs Wire WireProofs.
 From Slim Require Import Base Keys Model BitmapRank Flat FlatProofs Msg MsgProofs EndToEnd EndToEndProofs.
-From Slim Require Bits.
+From Slim Require Bits BuildDetProofs.
+From Coq Require Import Permutation Sorting.Sorted.
 Import ListNotations.
 Open Scope N_scope.
 
@@ -190,3 +191,32 @@ Proof.
   split; [vm_compute; reflexivity|]. split; [vm_compute; reflexivity|]. split; [vm_compute; repeat constructor|].
   vm_compute. reflexivity.
 Qed.
+
+(* ---- determinism of the build ---------------------------------------------------------------
+   The only step of creator.build that consults unordered data is sortedBMCounts: it ranges
+   over Go maps (iteration order unspecified) and calls sort.Slice (algorithm unspecified,
+   not stable).  Whatever order the map yields its (distinct) entries in, and whatever sorted
+   arrangement sort.Slice returns, the result is the list the model computes: the comparator
+   is a strict total order on distinct entries.  Everything else in the model of the build
+   is a Coq function of (options, keys, values); so ShortSize, ShortTable and with them every
+   field of the message and every byte of Marshal() are determined by the input.  (The oracle
+   additionally rebuilds every case 5 times and compares the bytes.) *)
+Theorem C05_build_deterministic :
+  forall ins cs nbit s,
+    Bits.count_bms ins [] = Val cs ->
+    let entries := map (fun e : N * N * N => (snd (fst e), snd e))
+                       (filter (fun e => (fst (fst e) =? nbit)%N) cs) in
+    Permutation entries s -> StronglySorted BuildDetProofs.cnt_lt s -> s = Bits.cnt_sort entries.
+Proof. exact BuildDetProofs.sorted_counts_unique. Qed.
+Print Assumptions C05_build_deterministic.
+
+Theorem C05_sort_order_independent :
+  forall entries entries', NoDup entries -> Permutation entries entries' ->
+    Bits.cnt_sort entries' = Bits.cnt_sort entries.
+Proof. exact BuildDetProofs.cnt_sort_order_independent. Qed.
+Print Assumptions C05_sort_order_independent.
+
+Example C05_sort_example :
+  Bits.cnt_sort [(5, 2); (9, 7); (3, 2); (1, 7)]%N = [(9, 7); (1, 7); (5, 2); (3, 2)]%N /\
+  Bits.cnt_sort [(3, 2); (1, 7); (5, 2); (9, 7)]%N = [(9, 7); (1, 7); (5, 2); (3, 2)]%N.
+Proof. split; vm_compute; reflexivity. Qed.
